@@ -329,7 +329,8 @@ impl<L: LSPLang> Backend<L> {
     let mut diagnostics = self
       .get_diagnostics(&uri, &versioned)
       .ok_or(LspError::NoActionableFix)?;
-    diagnostics.sort_by_key(|d| (d.range.start, d.range.end));
+    // matches starting together: the outer one first, the order in which the CLI applies fixes
+    diagnostics.sort_by_key(|d| (d.range.start, std::cmp::Reverse(d.range.end)));
     let mut last = Position {
       line: 0,
       character: 0,
@@ -337,12 +338,13 @@ impl<L: LSPLang> Backend<L> {
     let edits: Vec<_> = diagnostics
       .into_iter()
       .filter_map(|d| {
-        if d.range.start < last {
+        let rewrite_data = RewriteData::from_value(d.data?)?;
+        let range = rewrite_data.replaced_range(d.range);
+        if range.start < last {
           return None;
         }
-        let rewrite_data = RewriteData::from_value(d.data?)?;
-        let edit = TextEdit::new(d.range, rewrite_data.fixed);
-        last = d.range.end;
+        let edit = TextEdit::new(range, rewrite_data.fixed);
+        last = range.end;
         Some(edit)
       })
       .collect();
